@@ -105,3 +105,85 @@ def frac_equal(fr, node):
     """is num/den == node (a polynomial-representable node)?  cross-multiplied canonical comparison"""
     n2, d2 = to_frac(node)
     return X._pmul(fr[0], d2) == X._pmul(n2, fr[1])
+
+
+# ------------------------------------------------------------------------------------------------ power-law terms: degrees a + b*alpha, alpha in (0, 1)
+def _power_node_degree(uid_key, var_atom, alpha_names):
+    """opaque node exp(alpha * log(base)) with base = (coefficient free of var) * var^k: returns (k, alpha_name) or None"""
+    nd = X.node_by_uid(uid_key[1])
+    if not (nd.op == 'fn' and nd.val == 'exp'):
+        return None
+    arg = nd.args[0]
+    if arg.op != 'mul':
+        return None
+    a, b = arg.args
+    if b.op == 'fn' and b.val == 'log': expo, lg = a, b
+    elif a.op == 'fn' and a.val == 'log': expo, lg = b, a
+    else: return None
+    if not (expo.op == 'atom' and expo.val[0] in alpha_names):
+        return None
+    base = lg.args[0]
+    num, den = to_frac(base)
+    def mono_deg(poly):
+        degs = set()
+        for m, c in poly.items():
+            dg = 0
+            for k, e in m:
+                if k == ('a', var_atom.uid): dg = e
+                elif k[0] == 'n' and depends_on(k, var_atom.val[0]): return None
+            degs.add(dg)
+        return degs.pop() if len(degs) == 1 else None
+    kn, kd = mono_deg(num), mono_deg(den)
+    if kn is None or kd is None:
+        return None
+    return (kn - kd, expo.val[0])
+
+
+def _dominates(d1, d2):
+    """d = (a, b) stands for a + b*alpha; True if d1 >= d2 for every alpha in [0, 1] and they are not identical"""
+    da, db = d1[0] - d2[0], d1[1] - d2[1]
+    return (da >= 0 and da + db >= 0) and not (da == 0 and db == 0)
+
+
+def gen_degree_split(poly, var_atom, alpha_names):
+    out = {}
+    for m, c in poly.items():
+        a = 0; b = 0; rest = []
+        for k, e in m:
+            if k == ('a', var_atom.uid):
+                a += e; continue
+            if k[0] == 'n' and depends_on(k, var_atom.val[0]):
+                pd = _power_node_degree(k, var_atom, alpha_names)
+                if pd is None:
+                    raise AnalysisError(f'limit in {var_atom.val[0]}: a sub-term that is neither rational nor a power law depends on it')
+                b += pd[0] * e
+            rest.append((k, e))
+        out.setdefault((a, b), {})[tuple(rest)] = c
+    return out
+
+
+def limit_power_law(node, var_atom, where, alpha_names=('alpha',)):
+    """like limit(), for expressions that also contain power laws (coeff * var^k)**alpha with 0 < alpha < 1.  A monomial var^a * P^b has degree a + b k alpha;
+    the limit is decided only if one monomial of the numerator and one of the denominator dominate all others for EVERY alpha in (0, 1)."""
+    num, den = to_frac(node)
+    if not num:
+        return ('zero',)
+    ns = gen_degree_split(num, var_atom, alpha_names); ds = gen_degree_split(den, var_atom, alpha_names)
+
+    def pick(degs):
+        degs = list(degs)
+        for c in degs:
+            if where == 'inf':
+                if all(c == o or _dominates(c, o) for o in degs): return c
+            else:
+                if all(c == o or _dominates(o, c) for o in degs): return c
+        raise AnalysisError(f'limit in {var_atom.val[0]}: no monomial dominates for every exponent in (0, 1): degrees {degs}')
+    dn = pick(ns); dd = pick(ds)
+    diff = (dn[0] - dd[0], dn[1] - dd[1])
+    if diff == (0, 0):
+        return ('finite', (ns[dn], ds[dd]))
+    up = _dominates(dn, dd); down = _dominates(dd, dn)
+    if not (up or down):
+        raise AnalysisError(f'limit in {var_atom.val[0]}: numerator and denominator degrees {dn}, {dd} are not ordered for every exponent in (0, 1)')
+    grows = up if where == 'inf' else down
+    return ('infinite', (ns[dn], ds[dd])) if grows else ('zero',)
